@@ -1,10 +1,974 @@
-"""E2: MIR -> SMT-LIB2 obligation checker (see DESIGN.md §2.1). Filled in below."""
-JOBS = []
+"""
+E2: MIR -> SMT-LIB2 obligation checker (DESIGN.md §2.1).
+
+What it decides.  For every arithmetic panic site rustc leaves in the MIR of jaq's own crates
+(`assert(!overflow, "attempt to compute `{} + {}`, which would overflow" ...)`, negation,
+division / remainder by zero, shift overflow, and array index bounds), compiled with overflow
+checks ON, it asks an SMT solver whether the assertion can fail.  The encoding is regenerated
+from /repo's current source on every run:
+
+  cargo +nightly rustc -- -Zunpretty=mir -C overflow-checks=on     (per crate, in the overlay)
+
+and is deliberately an OVER-approximation of the function's behaviour, so that `unsat` is a proof
+for every input (no bound on loop iterations or data sizes), while `sat` is only a candidate:
+
+  * integer locals are bit-vectors of their exact width; IntToInt casts extend / truncate
+    by signedness; {Add,Sub,Mul}WithOverflow, Neg, Div, Rem, comparisons, bit operations and
+    shifts have their machine semantics;
+  * every call returns an unconstrained value of its type ("havoc"), except a short list of
+    core-library contracts (len() <= isize::MAX, checked_*, unsigned_abs, saturating_sub, min/max);
+  * paths: all acyclic paths from the function entry to the assertion are enumerated (back edges
+    are cut and everything assigned inside a loop is havoc'd at the loop header); conditions of
+    `switchInt` and of earlier assertions along the path are assumed;
+  * assumption A1: `usize` PARAMETERS are lengths, positions or nesting depths and therefore
+    at most isize::MAX (Rust's allocation limit; the property excepts resource exhaustion).
+
+Verdict per site: proved | candidate.  Candidates are never reported directly:
+  - a candidate listed in lib/e2_baseline.json (keyed by crate, function, message and operand
+    text -- no line numbers) is a site this abstraction cannot decide on the unchanged tree
+    (it needs a data-structure invariant); it is reported as "undecided", never as a violation;
+  - a NEW candidate in a function that has a replay template is replayed through the `jaq` binary
+    built from the overlay in the dev profile (the solver's values, then the type's boundary
+    values, are substituted into the template); a panic (exit status 101) makes it a VIOLATION;
+  - a new candidate without a reproducing replay is INCONCLUSIVE (exit 2), never success.
+Every query is sent to z3 and cvc5; disagreement or an `(error` line is inconclusive.
+"""
+import json
+import os
+import re
+import shutil
+import subprocess
+import time
+
+VERIF = os.path.dirname(os.path.dirname(os.path.abspath(__file__)))
+BASELINE = os.path.join(VERIF, "lib", "e2_baseline.json")
+
+CRATES = {
+    # crate dir -> cargo target selector
+    "jaq-core": ["--lib"],
+    "jaq-std": ["--lib"],
+    "jaq-json": ["--lib"],
+    "jaq-fmts": ["--lib"],
+    "jaq-all": ["--lib"],
+    "jaq": ["--bin", "jaq"],
+}
+
+JOBS = [
+    {"name": "e2_arith_sites_all_crates", "prop": "C05", "tier": "quick", "crates": list(CRATES)},
+    {"name": "e2_arith_sites_time", "prop": "C20", "tier": "quick", "crates": ["jaq-std"],
+     "only_fn": r"(epoch_to_timestamp|float_to_micros|timestamp_to_epoch|array_to_datetime|datetime_to_array|to_iso8601|gmtime|mktime|strftime|strptime)"},
+]
+
+INT_W = {"i8": 8, "u8": 8, "i16": 16, "u16": 16, "i32": 32, "u32": 32, "i64": 64, "u64": 64,
+         "i128": 128, "u128": 128, "isize": 64, "usize": 64, "char": 32, "bool": 1}
+
+
+def is_signed(t):
+    return t in ("i8", "i16", "i32", "i64", "i128", "isize")
 
 
 def jobs_for(prop, tier):
     return [j for j in JOBS if j["prop"] == prop and (tier == "thorough" or j["tier"] == "quick")]
 
 
+# ------------------------------------------------------------------------------------------
+# MIR parsing
+# ------------------------------------------------------------------------------------------
+class Fn:
+    def __init__(self, name, header):
+        self.name, self.header = name, header
+        self.types = {}      # "_N" -> type text
+        self.params = []     # ["_1", ...]
+        self.blocks = {}     # id -> (stmts [str], term str)
+        self.order = []
+
+
+def parse_mir(text):
+    fns = []
+    cur = None
+    blk = None
+    for line in text.split("\n"):
+        if line.startswith("fn "):
+            m = re.match(r"fn (.*?)\((.*)\) -> (.*) \{$", line)
+            if not m:
+                cur = None
+                continue
+            cur = Fn(m.group(1), line)
+            # parameters: _N: type, split on top-level commas
+            depth, tok, parts = 0, "", []
+            for ch in m.group(2):
+                if ch in "<([{":
+                    depth += 1
+                elif ch in ">)]}":
+                    depth -= 1
+                if ch == "," and depth == 0:
+                    parts.append(tok)
+                    tok = ""
+                else:
+                    tok += ch
+            if tok.strip():
+                parts.append(tok)
+            for p in parts:
+                pm = re.match(r"\s*(_\d+): (.*)$", p.strip())
+                if pm:
+                    cur.types[pm.group(1)] = pm.group(2).strip()
+                    cur.params.append(pm.group(1))
+            fns.append(cur)
+            blk = None
+            continue
+        if cur is None:
+            continue
+        if line == "}":
+            cur = None
+            continue
+        s = line.strip()
+        m = re.match(r"let (?:mut )?(_\d+): (.*);$", s)
+        if m and blk is None:
+            cur.types[m.group(1)] = m.group(2)
+            continue
+        m = re.match(r"(bb\d+)( \(cleanup\))?: \{$", s)
+        if m:
+            blk = m.group(1)
+            cur.blocks[blk] = {"stmts": [], "term": None, "cleanup": bool(m.group(2))}
+            cur.order.append(blk)
+            continue
+        if blk is not None:
+            if s == "}":
+                blk = None
+                continue
+            if not s or s.startswith("//"):
+                continue
+            b = cur.blocks[blk]
+            if is_terminator(s):
+                b["term"] = s.rstrip(";")
+            else:
+                b["stmts"].append(s.rstrip(";"))
+    return fns
+
+
+def is_terminator(s):
+    return (s.startswith(("goto ", "switchInt(", "assert(", "return", "unreachable", "resume", "drop(",
+                          "falseEdge", "falseUnwind", "terminate", "yield", "tailcall"))
+            or re.search(r"-> \[return: bb\d+|-> unwind|-> \[unwind", s) is not None
+            or re.search(r"\) -> bb\d+;?$", s) is not None)
+
+
+def succs(term):
+    """-> list of (target bb, kind, data)"""
+    if term is None:
+        return []
+    m = re.match(r"goto -> (bb\d+)", term)
+    if m:
+        return [(m.group(1), "goto", None)]
+    m = re.match(r"switchInt\((.*)\) -> \[(.*)\]$", term)
+    if m:
+        out, vals = [], []
+        for part in m.group(2).split(", "):
+            k, v = part.split(": ")
+            if k == "otherwise":
+                out.append((v, "otherwise", (m.group(1), list(vals))))
+            else:
+                vals.append(k)
+                out.append((v, "case", (m.group(1), k)))
+        return out
+    m = re.match(r"assert\((.*)\) -> \[success: (bb\d+)", term)
+    if m:
+        return [(m.group(2), "assert", m.group(1))]
+    m = re.match(r"assert\((.*)\) -> (bb\d+)", term)
+    if m:
+        return [(m.group(2), "assert", m.group(1))]
+    m = re.search(r"-> \[return: (bb\d+)", term)
+    if m:
+        return [(m.group(1), "call", term)]
+    m = re.match(r"drop\(.*\) -> \[return: (bb\d+)", term)
+    if m:
+        return [(m.group(1), "goto", None)]
+    m = re.match(r"(?:falseEdge|falseUnwind) -> \[real: (bb\d+)", term)
+    if m:
+        return [(m.group(1), "goto", None)]
+    m = re.search(r"\) -> (bb\d+)$", term)
+    if m:
+        return [(m.group(1), "call", term)]
+    return []
+
+
+TARGET_MSG = re.compile(r"attempt to|index out of bounds")
+
+
+# ------------------------------------------------------------------------------------------
+# symbolic evaluation of one path
+# ------------------------------------------------------------------------------------------
+class Enc:
+    def __init__(self, fn):
+        self.fn = fn
+        self.decls = []      # smt declarations
+        self.asserts = []    # smt assertions (path condition + contracts)
+        self.env = {}        # place -> (smt term, type)
+        self.n = 0
+        self.havoced = []    # (name, type, origin) for counterexample display
+
+    def fresh(self, typ, origin):
+        self.n += 1
+        name = f"v{self.n}"
+        w = INT_W.get(typ)
+        if w is None:
+            return None
+        sort = "Bool" if typ == "bool" else f"(_ BitVec {w})"
+        self.decls.append(f"(declare-const {name} {sort})")
+        self.havoced.append((name, typ, origin))
+        return name
+
+    def place_type(self, place):
+        place = place.strip()
+        m = re.match(r"^\((.*): ([^:()]+)\)$", place)
+        if m and re.match(r"^[\w:<>& ]+$", m.group(2)):
+            return m.group(2).strip()
+        if re.match(r"^_\d+$", place):
+            return self.fn.types.get(place, "?")
+        m = re.match(r"^\(\*(_\d+)\)$", place)
+        if m:
+            t = self.fn.types.get(m.group(1), "?")
+            return re.sub(r"^&(?:'\w+ )?(?:mut )?", "", t)
+        return "?"
+
+    def read(self, place):
+        place = place.strip()
+        if place in self.env:
+            return self.env[place]
+        typ = self.place_type(place)
+        v = self.fresh(typ, place)
+        if v is not None and typ == "usize" and place in self.fn.params:
+            # assumption A1
+            self.asserts.append(f"(bvule {v} #x7fffffffffffffff)")
+        self.env[place] = (v, typ)
+        return self.env[place]
+
+    def kill(self, base):
+        for k in [k for k in self.env if re.search(r"(?<![\w])" + re.escape(base) + r"(?![\d])", k)]:
+            del self.env[k]
+
+    def const(self, text):
+        m = re.match(r"^const (-?\d+)_(\w+)$", text)
+        if m and m.group(2) in INT_W:
+            w = INT_W[m.group(2)]
+            v = int(m.group(1)) % (1 << w)
+            return (f"(_ bv{v} {w})", m.group(2))
+        m = re.match(r"^const (true|false)$", text)
+        if m:
+            return (m.group(1), "bool")
+        m = re.match(r"^const (\w+)::(MIN|MAX)$", text)
+        if m and m.group(1) in INT_W:
+            t, w = m.group(1), INT_W[m.group(1)]
+            if is_signed(t):
+                v = (1 << (w - 1)) if m.group(2) == "MIN" else (1 << (w - 1)) - 1
+            else:
+                v = 0 if m.group(2) == "MIN" else (1 << w) - 1
+            return (f"(_ bv{v} {w})", t)
+        m = re.match(r"^const '(.)'$", text)
+        if m:
+            return (f"(_ bv{ord(m.group(1))} 32)", "char")
+        return None
+
+    def operand(self, text):
+        text = text.strip()
+        text = re.sub(r"^(copy|move) ", "", text)
+        text = re.sub(r"^no_retag ", "", text)
+        if text.startswith("const "):
+            c = self.const(text)
+            return c if c else (None, "?")
+        return self.read(text)
+
+    def as_bool(self, term, typ):
+        if term is None:
+            return None
+        return term if typ == "bool" else None
+
+    def rvalue(self, rhs, lhs_type):
+        """-> (term or None, type, extra) ; extra for WithOverflow: (val, ovf)"""
+        rhs = rhs.strip()
+        m = re.match(r"^(Add|Sub|Mul)WithOverflow\((.*), (.*)\)$", rhs)
+        if m:
+            a, ta = self.operand(m.group(2))
+            b, tb = self.operand(m.group(3))
+            t = ta if ta in INT_W else tb
+            if a is None or b is None or t not in INT_W:
+                return (None, lhs_type, ("?", t))
+            w, sg = INT_W[t], is_signed(t)
+            op = {"Add": "bvadd", "Sub": "bvsub", "Mul": "bvmul"}[m.group(1)]
+            val = f"({op} {a} {b})"
+            ext = "sign_extend" if sg else "zero_extend"
+            extra = w if m.group(1) == "Mul" else 1
+            wa, wb = f"((_ {ext} {extra}) {a})", f"((_ {ext} {extra}) {b})"
+            wide = f"({op} {wa} {wb})"
+            back = f"((_ {ext} {extra}) {val})"
+            ovf = f"(not (= {wide} {back}))"
+            return (None, lhs_type, (val, ovf, t))
+        m = re.match(r"^(Add|Sub|Mul|BitAnd|BitOr|BitXor|Div|Rem|Shl|Shr|AddUnchecked|SubUnchecked|MulUnchecked|ShlUnchecked|ShrUnchecked)\((.*), (.*)\)$", rhs)
+        if m:
+            a, ta = self.operand(m.group(2))
+            b, tb = self.operand(m.group(3))
+            t = ta
+            if a is None or b is None or t not in INT_W:
+                return (None, lhs_type, None)
+            sg = is_signed(t)
+            k = m.group(1).replace("Unchecked", "")
+            if t == "bool":
+                op = {"BitAnd": "and", "BitOr": "or", "BitXor": "xor"}.get(k)
+                return (f"({op} {a} {b})", "bool", None) if op else (None, lhs_type, None)
+            if k in ("Shl", "Shr"):
+                wa, wb = INT_W[t], INT_W.get(tb, 0)
+                if wb == 0:
+                    return (None, lhs_type, None)
+                if wb < wa:
+                    b = f"((_ zero_extend {wa - wb}) {b})"
+                elif wb > wa:
+                    b = f"((_ extract {wa - 1} 0) {b})"
+                b = f"(bvurem {b} (_ bv{wa} {wa}))" if False else f"(bvand {b} (_ bv{wa - 1} {wa}))"
+                op = "bvshl" if k == "Shl" else ("bvashr" if sg else "bvlshr")
+                return (f"({op} {a} {b})", t, None)
+            op = {"Add": "bvadd", "Sub": "bvsub", "Mul": "bvmul", "BitAnd": "bvand", "BitOr": "bvor",
+                  "BitXor": "bvxor", "Div": "bvsdiv" if sg else "bvudiv", "Rem": "bvsrem" if sg else "bvurem"}[k]
+            return (f"({op} {a} {b})", t, None)
+        m = re.match(r"^(Lt|Le|Gt|Ge|Eq|Ne)\((.*), (.*)\)$", rhs)
+        if m:
+            a, ta = self.operand(m.group(2))
+            b, tb = self.operand(m.group(3))
+            t = ta if ta in INT_W else tb
+            if a is None or b is None or t not in INT_W:
+                return (None, "bool", None)
+            if m.group(1) == "Eq":
+                return (f"(= {a} {b})", "bool", None)
+            if m.group(1) == "Ne":
+                return (f"(not (= {a} {b}))", "bool", None)
+            if t == "bool":
+                return (None, "bool", None)
+            sg = is_signed(t)
+            op = {"Lt": "bvslt" if sg else "bvult", "Le": "bvsle" if sg else "bvule",
+                  "Gt": "bvsgt" if sg else "bvugt", "Ge": "bvsge" if sg else "bvuge"}[m.group(1)]
+            return (f"({op} {a} {b})", "bool", None)
+        m = re.match(r"^Not\((.*)\)$", rhs)
+        if m:
+            a, ta = self.operand(m.group(1))
+            if a is None:
+                return (None, lhs_type, None)
+            return (f"(not {a})", "bool", None) if ta == "bool" else (f"(bvnot {a})", ta, None)
+        m = re.match(r"^Neg\((.*)\)$", rhs)
+        if m:
+            a, ta = self.operand(m.group(1))
+            if a is None or ta not in INT_W:
+                return (None, lhs_type, None)
+            return (f"(bvneg {a})", ta, None)
+        m = re.match(r"^(.*) as (\w+) \((\w+)\)$", rhs)
+        if m:
+            kind, to = m.group(3), m.group(2)
+            a, ta = self.operand(m.group(1))
+            if kind == "IntToInt" and a is not None and ta in INT_W and to in INT_W:
+                if ta == "bool":
+                    a = f"(ite {a} #b1 #b0)"
+                wa, wt = INT_W[ta], INT_W[to]
+                if wt == wa:
+                    r = a
+                elif wt < wa:
+                    r = f"((_ extract {wt - 1} 0) {a})"
+                else:
+                    ext = "sign_extend" if is_signed(ta) else "zero_extend"
+                    r = f"((_ {ext} {wt - wa}) {a})"
+                if to == "bool":
+                    r = f"(= {r} #b1)"
+                return (r, to, None)
+            return (None, to if to in INT_W else lhs_type, None)   # float casts etc.: havoc of the target type
+        m = re.match(r"^PtrMetadata\((.*)\)$", rhs)
+        if m or re.match(r"^Len\(", rhs):
+            v = self.fresh("usize", rhs)
+            self.asserts.append(f"(bvule {v} #x7fffffffffffffff)")   # a slice length
+            return (v, "usize", None)
+        m = re.match(r"^discriminant\((.*)\)$", rhs)
+        if m:
+            key = f"discriminant({m.group(1).strip()})"
+            if key not in self.env:
+                self.env[key] = (self.fresh(lhs_type if lhs_type in INT_W else "isize", key), lhs_type)
+            return (self.env[key][0], lhs_type, None)
+        if re.match(r"^(copy |move |const |\(|_\d+$|no_retag )", rhs) and not rhs.startswith("(_") or re.match(r"^\(?_\d+", rhs):
+            t, ty = self.operand(rhs)
+            return (t, ty if ty != "?" else lhs_type, None)
+        return (None, lhs_type, None)
+
+    def assign(self, lhs, rhs):
+        lhs = lhs.strip()
+        base = re.search(r"_\d+", lhs).group(0)
+        lt = self.place_type(lhs)
+        term, typ, extra = self.rvalue(rhs, lt)
+        self.kill(base) if lhs == base else self.env.pop(lhs, None)
+        if extra and len(extra) == 3:
+            val, ovf, t = extra
+            self.env[f"({lhs}.0: {t})"] = (val, t)
+            self.env[f"({lhs}.1: bool)"] = (ovf, "bool")
+            return
+        if term is not None:
+            self.env[lhs] = (term, typ if typ in INT_W else lt)
+
+    def call(self, term):
+        m = re.match(r"^(.*?) = (.*?)\((.*)\) -> ", term)
+        if not m:
+            return
+        lhs, callee, args = m.group(1).strip(), m.group(2), m.group(3)
+        base = re.search(r"_\d+", lhs)
+        if base:
+            self.kill(base.group(0)) if lhs == base.group(0) else self.env.pop(lhs, None)
+        lt = self.place_type(lhs)
+        # &mut arguments may be written by the callee: havoc what they point to
+        for am in re.finditer(r"(?:move|copy) (_\d+)", args):
+            t = self.fn.types.get(am.group(1), "")
+            if t.startswith("&mut") or "&mut" in t[:12]:
+                for k in [k for k in self.env if f"(*{am.group(1)})" in k]:
+                    del self.env[k]
+        self.contract(lhs, lt, callee, args)
+
+    def contract(self, lhs, lt, callee, args):
+        argv = split_args(args)
+        ops = [self.operand(a) for a in argv] if len(argv) <= 3 else []
+        short = re.sub(r"<[^<>]*>", "", callee)
+        short = re.sub(r"<[^<>]*>", "", short)
+        name = short.split("::")[-1]
+        if lt == "usize" and (name in ("len", "count", "capacity") or callee.endswith("::len")):
+            v = self.fresh("usize", f"{name}()")
+            self.asserts.append(f"(bvule {v} #x7fffffffffffffff)")
+            self.env[lhs] = (v, "usize")
+            return
+        intty = re.search(r"impl (\w+)>::", callee)
+        t = intty.group(1) if intty and intty.group(1) in INT_W else None
+        if t and all(o[0] is not None for o in ops) and ops:
+            w, sg = INT_W[t], is_signed(t)
+            a = ops[0][0]
+            b = ops[1][0] if len(ops) > 1 else None
+            if name in ("checked_add", "checked_sub", "checked_mul") and b:
+                op = {"checked_add": "bvadd", "checked_sub": "bvsub", "checked_mul": "bvmul"}[name]
+                ext = "sign_extend" if sg else "zero_extend"
+                extra = w if name == "checked_mul" else 1
+                val = f"({op} {a} {b})"
+                ok = f"(= ({op} ((_ {ext} {extra}) {a}) ((_ {ext} {extra}) {b})) ((_ {ext} {extra}) {val}))"
+                self.option(lhs, ok, val, t)
+                return
+            if name == "checked_neg":
+                ok = f"(not (= {a} (_ bv{1 << (w - 1)} {w})))" if sg else f"(= {a} (_ bv0 {w}))"
+                self.option(lhs, ok, f"(bvneg {a})", t)
+                return
+            if name == "checked_abs" and sg:
+                self.option(lhs, f"(not (= {a} (_ bv{1 << (w - 1)} {w})))", f"(ite (bvslt {a} (_ bv0 {w})) (bvneg {a}) {a})", t)
+                return
+            if name == "unsigned_abs" and sg:
+                self.env[lhs] = (f"(ite (bvslt {a} (_ bv0 {w})) (bvneg {a}) {a})", "u" + t[1:])
+                return
+            if name == "saturating_sub" and b and not sg:
+                self.env[lhs] = (f"(ite (bvult {a} {b}) (_ bv0 {w}) (bvsub {a} {b}))", t)
+                return
+            if name in ("wrapping_add", "wrapping_sub", "wrapping_mul") and b:
+                op = {"wrapping_add": "bvadd", "wrapping_sub": "bvsub", "wrapping_mul": "bvmul"}[name]
+                self.env[lhs] = (f"({op} {a} {b})", t)
+                return
+        if name in ("min", "max") and len(ops) == 2 and all(o[0] is not None for o in ops) and ops[0][1] in INT_W and ops[0][1] != "bool":
+            t = ops[0][1]
+            lt_op = "bvslt" if is_signed(t) else "bvult"
+            a, b = ops[0][0], ops[1][0]
+            self.env[lhs] = ((f"(ite ({lt_op} {b} {a}) {b} {a})" if name == "min" else f"(ite ({lt_op} {b} {a}) {a} {b})"), t)
+            return
+        # havoc (already killed); nothing known about the result
+
+    def option(self, lhs, ok, val, t):
+        self.env[f"discriminant({lhs})"] = (f"(ite {ok} (_ bv1 64) (_ bv0 64))", "isize")
+        self.env[f"(({lhs} as Some).0: {t})"] = (val, t)
+
+    def edge(self, kind, data):
+        """assume the condition of a taken edge"""
+        if kind == "case":
+            t, ty = self.operand(data[0])
+            if t is None:
+                return
+            if ty == "bool":
+                self.asserts.append(t if data[1] != "0" else f"(not {t})")
+            elif ty in INT_W:
+                w = INT_W[ty]
+                self.asserts.append(f"(= {t} (_ bv{int(data[1]) % (1 << w)} {w}))")
+        elif kind == "otherwise":
+            t, ty = self.operand(data[0])
+            if t is None:
+                return
+            for v in data[1]:
+                if ty == "bool":
+                    self.asserts.append(f"(not {t})" if v != "0" else t)
+                elif ty in INT_W:
+                    w = INT_W[ty]
+                    self.asserts.append(f"(not (= {t} (_ bv{int(v) % (1 << w)} {w})))")
+        elif kind == "assert":
+            c = self.assert_cond(data)
+            if c:
+                self.asserts.append(c)
+
+    def assert_cond(self, data):
+        cond = split_args(data)[0].strip()
+        neg = cond.startswith("!")
+        t, ty = self.operand(cond.lstrip("!"))
+        if t is None or ty != "bool":
+            return None
+        return f"(not {t})" if neg else t
+
+
+def split_args(s):
+    depth, tok, parts, instr = 0, "", [], False
+    for ch in s:
+        if ch == '"':
+            instr = not instr
+        if not instr:
+            if ch in "<([{":
+                depth += 1
+            elif ch in ">)]}":
+                depth -= 1
+        if ch == "," and depth == 0 and not instr:
+            parts.append(tok.strip())
+            tok = ""
+        else:
+            tok += ch
+    if tok.strip():
+        parts.append(tok.strip())
+    return parts
+
+
+# ------------------------------------------------------------------------------------------
+# per-function analysis
+# ------------------------------------------------------------------------------------------
+def analyse_fn(fn, solvers, stats, path_cap=4000):
+    """-> list of site dicts {fn, block, msg, operands, verdict, model}"""
+    blocks = {b: v for b, v in fn.blocks.items() if not v["cleanup"]}
+    sites = []
+    for b in fn.order:
+        if b in blocks and blocks[b]["term"] and blocks[b]["term"].startswith("assert("):
+            inner = re.match(r"assert\((.*)\) -> ", blocks[b]["term"]).group(1)
+            parts = split_args(inner)
+            msg = parts[1].strip('"') if len(parts) > 1 else ""
+            if TARGET_MSG.search(msg):
+                sites.append((b, parts[0], msg, parts[2:]))
+    if not sites:
+        return []
+    entry = fn.order[0]
+    succ = {b: [(t, k, d) for (t, k, d) in succs(v["term"]) if t in blocks] for b, v in blocks.items()}
+    # back edges by DFS
+    color, back = {}, set()
+
+    def dfs(u):
+        color[u] = 1
+        for (v, _, _) in succ[u]:
+            if color.get(v) == 1:
+                back.add((u, v))
+            elif v not in color:
+                dfs(v)
+        color[u] = 2
+    import sys
+    sys.setrecursionlimit(10000)
+    dfs(entry)
+    heads = {v for (_, v) in back}
+    pred = {b: [] for b in blocks}
+    for u in blocks:
+        for (v, _, _) in succ[u]:
+            pred[v].append(u)
+    # natural loop bodies -> locals assigned in them
+    loop_assigned = {}
+    for (u, h) in back:
+        body, stack = {h, u}, [u]
+        while stack:
+            x = stack.pop()
+            if x == h:
+                continue
+            for p in pred[x]:
+                if p not in body:
+                    body.add(p)
+                    stack.append(p)
+        s = loop_assigned.setdefault(h, set())
+        for x in body:
+            for st in blocks[x]["stmts"]:
+                m = re.match(r"^(.*?) = ", st)
+                if m:
+                    bm = re.search(r"_\d+", m.group(1))
+                    if bm:
+                        s.add(bm.group(0))
+            tm = blocks[x]["term"] or ""
+            m = re.match(r"^(.*?) = .*\) -> ", tm)
+            if m:
+                bm = re.search(r"_\d+", m.group(1))
+                if bm:
+                    s.add(bm.group(0))
+            # anything passed by &mut may change as well: conservatively all locals of &mut type targets
+    out = []
+    for (b, cond, msg, ops) in sites:
+        # blocks that can reach b (forward edges only)
+        reach, stack = {b}, [b]
+        while stack:
+            x = stack.pop()
+            for p in pred[x]:
+                if (p, x) in back:
+                    continue
+                if p not in reach:
+                    reach.add(p)
+                    stack.append(p)
+        verdict, model, npaths = "proved", None, 0
+        # DFS over acyclic paths entry -> b
+        paths = []
+
+        def walk(u, path):
+            nonlocal npaths
+            if npaths > path_cap:
+                return
+            if u == b:
+                npaths += 1
+                paths.append(list(path))
+                return
+            for (v, k, d) in succ[u]:
+                if (u, v) in back or v not in reach:
+                    continue
+                path.append((u, v, k, d))
+                walk(v, path)
+                path.pop()
+        if entry in reach:
+            walk(entry, [])
+        if npaths > path_cap:
+            verdict = "candidate"
+            model = {"note": f"more than {path_cap} paths: not enumerated; site treated as undecided"}
+        for path in paths:
+            if verdict == "candidate":
+                break
+            e = Enc(fn)
+            seq = [p[0] for p in path] + [b]
+            for i, blk in enumerate(seq):
+                if blk in heads:
+                    for loc in loop_assigned.get(blk, ()):
+                        e.kill(loc)
+                        e.env.pop(f"discriminant({loc})", None)
+                for st in blocks[blk]["stmts"]:
+                    m = re.match(r"^(.*?) = (.*)$", st)
+                    if m and not st.startswith(("StorageLive", "StorageDead", "FakeRead", "PlaceMention", "AscribeUserType", "Coverage", "nop", "Retag")):
+                        e.assign(m.group(1), m.group(2))
+                if blk == b:
+                    break
+                (_, _, k, d) = path[i]
+                if k == "call":
+                    e.call(d)
+                else:
+                    e.edge(k, d)
+            c = e.assert_cond(cond + ", x")
+            if c is None:
+                res, mdl = "sat", {"note": "assert condition not expressible (opaque operand)"}
+            else:
+                res, mdl = query(e, f"(not {c})", solvers, stats)
+            if res != "unsat":
+                verdict = "candidate" if res == "sat" else "error"
+                model = mdl
+                if isinstance(model, dict):
+                    model["path"] = seq
+        out.append({"fn": fn.name, "block": b, "msg": msg, "operands": [o.strip() for o in ops],
+                    "cond": cond, "verdict": verdict, "model": model, "paths": npaths})
+    return out
+
+
+def query(e, goal, solvers, stats):
+    smt = "(set-logic ALL)\n(set-option :produce-models true)\n" + "\n".join(e.decls) + "\n" + \
+          "\n".join(f"(assert {a})" for a in e.asserts) + f"\n(assert {goal})\n(check-sat)\n"
+    names = " ".join(h[0] for h in e.havoced)
+    if names:
+        smt += f"(get-value ({names}))\n"
+    verdicts = []
+    model = None
+    for (sname, cmd) in solvers:
+        t0 = time.time()
+        try:
+            p = subprocess.run(cmd, input=smt, capture_output=True, text=True, timeout=60)
+            outp = p.stdout
+        except subprocess.TimeoutExpired:
+            outp = "timeout"
+        stats["queries"] += 1
+        stats["solver_s"] += time.time() - t0
+        first = outp.strip().split("\n")[0] if outp.strip() else ""
+        if "(error" in outp and first not in ("sat", "unsat"):
+            verdicts.append("error")
+        elif first == "unsat":
+            verdicts.append("unsat")     # the (get-value) after unsat yields an (error line: expected
+        elif first == "sat":
+            verdicts.append("sat")
+            if model is None:
+                model = {}
+                for (n, t, origin) in e.havoced:
+                    m = re.search(r"\(" + n + r" (#x[0-9a-f]+|#b[01]+|true|false|\(_ bv\d+ \d+\))\)", outp)
+                    if m:
+                        model[origin] = fmt_val(m.group(1), t)
+        else:
+            verdicts.append("error")
+    if all(v == "unsat" for v in verdicts):
+        return "unsat", None
+    if all(v == "sat" for v in verdicts):
+        return "sat", model
+    stats["disagreements"] += 1
+    return "error", {"note": f"solvers disagree or failed: {verdicts}"}
+
+
+def fmt_val(s, t):
+    if s in ("true", "false"):
+        return s
+    if s.startswith("#x"):
+        v, w = int(s[2:], 16), 4 * (len(s) - 2)
+    elif s.startswith("#b"):
+        v, w = int(s[2:], 2), len(s) - 2
+    else:
+        m = re.match(r"\(_ bv(\d+) (\d+)\)", s)
+        v, w = int(m.group(1)), int(m.group(2))
+    if is_signed(t) and v >= 1 << (w - 1):
+        v -= 1 << w
+    return v
+
+
+# ------------------------------------------------------------------------------------------
+# replay templates: function-name regex -> list of jq program templates with {v}
+# ------------------------------------------------------------------------------------------
+REPLAY = [
+    (r"^(epoch_to_timestamp|float_to_micros|to_iso8601|gmtime|timestamp_to_epoch)",
+     ["{v} | gmtime", "{v} | todate", "{v} | strftime(\"%Y\")", "{v} | gmtime | mktime", "({v} + 0.5) | gmtime", "({v} + 0.5) | todate"]),
+    (r"^(array_to_datetime|mktime|strftime|datetime_to_array)",
+     ["[{v},0,1,0,0,0] | mktime", "[2000,{v},1,0,0,0] | mktime", "[2000,0,{v},0,0,0] | mktime",
+      "[2000,0,1,{v},0,0] | mktime", "[2000,0,1,0,{v},0] | mktime", "[2000,0,1,0,0,{v}] | mktime",
+      "[2000,{v},1,0,0,0] | strftime(\"%Y\")", "{v} | gmtime", "{v} | todate | fromdate"]),
+    (r"^(implode|explode)", ["[{v}] | implode", "[{v}, 65] | implode", "[65, {v}] | implode | explode"]),
+    (r"(round|try_as_i32|try_as_isize)", ["{v} | floor", "{v} | round", "{v} | ceil", "{v}.5 | round"]),
+    (r"(skip_take|abs_bound|abs_index|range|index_opt|map_index|map_range|bytes_splice|wrap|as_pos_usize)",
+     ["[1,2,3] | .[{v}]", "[1,2,3] | .[{v}:]", "[1,2,3] | .[:{v}]", "\"abc\" | .[{v}:]", "\"abc\" | .[:{v}]",
+      "\"aöb\" | .[{v}:1]", "[1,2,3] | .[{v}] = 0", "\"abc\" | .[{v}:] = \"xy\"", "(\"abc\"|tobytes) | .[{v}]",
+      "(\"abc\"|tobytes) | .[{v}:]", "[1,2,3] | .[{v}:2] = [9]", "[1,2,3] | has({v})"]),
+    (r"(Mul|mul|repeat)", ["\"ab\" * {v}", "{v} * \"ab\""]),
+    (r"(limit|skip|range|while_gtz|first|last)", ["[limit({v}; 1,2)]", "[skip({v}; 1,2)]", "[range({v}; {v} + 2)]", "[range(0; 2; {v})] | length"]),
+    (r"(length|Num)", ["{v} | length", "{v} | abs", "-({v})", "{v} | tojson"]),
+    (r"(indices|bsearch|funs)", ["[1,2,1] | indices({v})", "[1,2,3] | bsearch({v})", "\"abc\" | indices(\"b\") | .[{v}]"]),
+]
+BOUNDARY = [0, 1, -1, 2, -2, 127, 128, -128, -129, 255, 256, -255, -256, 32767, 32768, -32768, -32769,
+            2147483647, 2147483648, -2147483648, -2147483649, 4294967295, 4294967296,
+            9007199254740992, 9223372036854, 9223372036855, -9223372036855, 9223372036854775807,
+            -9223372036854775807, "(-9223372036854775807 - 1)", "(9223372036854775807 + 1)",
+            "(9223372036854775808 - 9223372036854775808)", 1114111, 1114112, 55296]
+
+
+def replay_candidate(site, jaq_bin, scratch, stats):
+    tmpl = None
+    for (rx, ts) in REPLAY:
+        if re.search(rx, site["fn"]):
+            tmpl = ts
+            break
+    if not tmpl or not jaq_bin:
+        return None
+    vals = []
+    if isinstance(site.get("model"), dict):
+        for k, v in site["model"].items():
+            if isinstance(v, int) and v not in vals:
+                vals.append(v)
+    for v in BOUNDARY:
+        if v not in vals:
+            vals.append(v)
+    for v in vals:
+        for t in tmpl:
+            sv = str(v) if not isinstance(v, int) or v >= 0 else f"({v})"
+            if isinstance(v, int) and v == -(1 << 63):
+                sv = "(-9223372036854775807 - 1)"
+            prog = t.replace("{v}", sv)
+            stats["replays"] += 1
+            try:
+                p = subprocess.run([jaq_bin, "-nc", prog], capture_output=True, text=True, timeout=20)
+            except subprocess.TimeoutExpired:
+                continue
+            if p.returncode == 101 or "panicked at" in p.stderr:
+                line = [l for l in p.stderr.split("\n") if "panicked at" in l or "attempt to" in l or "overflow" in l]
+                return {"program": prog, "exit": p.returncode, "stderr": " | ".join(line)[:400]}
+    return None
+
+
+# ------------------------------------------------------------------------------------------
+# job driver (called from bin/check)
+# ------------------------------------------------------------------------------------------
+def site_key(crate, s):
+    fn = re.sub(r"\{closure@[^}]*\}", "{closure}", s["fn"])
+    fn = re.sub(r"<impl at [^>]*>", "<impl>", fn)
+    ops = [re.sub(r"_\d+", "_", o) for o in s["operands"]]
+    return f"{crate}|{fn}|{s['msg']}|{','.join(ops)}"
+
+
+def dump_mir(overlay, crate, scratch):
+    out = os.path.join(scratch, f"{crate}.mir")
+    env = dict(os.environ)
+    env["CARGO_NET_OFFLINE"] = "true"
+    env["CARGO_TARGET_DIR"] = os.path.join(scratch, "t", "mir")
+    env.pop("RUSTFLAGS", None)
+    cmd = ["cargo", "+nightly", "rustc", "--offline"] + CRATES[crate] + \
+          ["--", "-Zunpretty=mir", "-C", "debug-assertions=off", "-C", "overflow-checks=on"]
+    with open(out, "w") as f, open(out + ".err", "w") as ef:
+        p = subprocess.run(cmd, cwd=os.path.join(overlay, crate), stdout=f, stderr=ef, env=env, timeout=1800)
+    if p.returncode != 0 or os.path.getsize(out) == 0:
+        err = open(out + ".err", errors="replace").read()
+        raise RuntimeError("MIR dump failed for %s: %s" % (crate, err[-300:]))
+    return open(out, errors="replace").read()
+
+
+def build_jaq(overlay, scratch):
+    env = dict(os.environ)
+    env["CARGO_NET_OFFLINE"] = "true"
+    env["CARGO_TARGET_DIR"] = os.path.join(scratch, "t", "jaqbin")
+    env.pop("RUSTFLAGS", None)
+    p = subprocess.run(["cargo", "build", "--offline", "-q", "--bin", "jaq"], cwd=os.path.join(overlay, "jaq"),
+                       env=env, capture_output=True, text=True, timeout=1800)
+    b = os.path.join(env["CARGO_TARGET_DIR"], "debug", "jaq")
+    return b if p.returncode == 0 and os.path.isfile(b) else None
+
+
+def solvers():
+    s = []
+    if shutil.which("z3"):
+        s.append(("z3", ["z3", "-in", "-T:60"]))
+    if shutil.which("cvc5"):
+        s.append(("cvc5", ["cvc5", "--lang", "smt2", "--produce-models", "--tlimit=60000"]))
+    return s
+
+
+def selftest(scratch, sv):
+    """Validate the translator on rustc's real MIR of functions with known ground truth."""
+    src = os.path.join(VERIF, "lib", "e2_selftest", "known.rs")
+    out = os.path.join(scratch, "e2_selftest.mir")
+    os.makedirs(scratch, exist_ok=True)
+    p = subprocess.run(["rustc", "+nightly", "--crate-type", "lib", "--edition", "2021", "-Zunpretty=mir",
+                        "-C", "debug-assertions=off", "-C", "overflow-checks=on", src],
+                       capture_output=True, text=True, timeout=300, cwd=scratch)
+    if p.returncode != 0 or not p.stdout:
+        return f"self-test: rustc failed: {p.stderr[-200:]}"
+    stats = {"queries": 0, "solver_s": 0.0, "disagreements": 0, "replays": 0}
+    seen = {}
+    for fn in parse_mir(p.stdout):
+        base = fn.name.split("::")[0]
+        sites = analyse_fn(fn, sv, stats)
+        seen.setdefault(base, []).extend(s["verdict"] for s in sites)
+    bad = []
+    for name, vs in seen.items():
+        if name.startswith("ok_") and any(v != "proved" for v in vs):
+            bad.append(f"{name}: expected all sites proved, got {vs}")
+        if name.startswith("bad_") and "candidate" not in vs:
+            bad.append(f"{name}: expected a candidate, got {vs}")
+    want = len(re.findall(r"pub fn bad_", open(src).read()))
+    have = len([n for n in seen if n.startswith("bad_") and seen[n]])
+    if have < want:
+        bad.append(f"only {have} of {want} bad_ self-test functions produced sites")
+    if sum(1 for n, vs in seen.items() if n.startswith("ok_") and vs) < 8:
+        bad.append("fewer than 8 ok_ self-test functions produced sites")
+    return "; ".join(bad) if bad else None
+
+
 def run_job(job, overlay, scratch):
-    raise NotImplementedError
+    t0 = time.time()
+    stats = {"queries": 0, "solver_s": 0.0, "disagreements": 0, "replays": 0}
+    r = {"harness": job["name"], "engine": "E2 mir->smt (z3 + cvc5)", "verdict": "inconclusive", "reason": "",
+         "failed": [], "checks_total": 0, "checks_passed": 0, "checks_unreachable": 0,
+         "functions": [], "bounds": "every arithmetic / index panic site in the MIR of " + ", ".join(job["crates"]) +
+         "; all input values (bit-vectors of exact width), any number of loop iterations (loops havoc'd); acyclic paths enumerated up to 4000 per site",
+         "assumptions": ["A1: usize parameters are lengths / positions / depths <= isize::MAX",
+                         "callees return arbitrary values of their type, except core contracts (len, checked_*, unsigned_abs, saturating_sub, wrapping_*, min, max)",
+                         "sites listed in lib/e2_baseline.json are undecided by this abstraction on the unchanged tree (they need a data-structure invariant) and are reported as undecided, not as violations"],
+         "asserts": "no arithmetic overflow / division by zero / shift overflow / negation overflow / array index out of bounds can occur at the site"}
+    sv = solvers()
+    if len(sv) < 2:
+        r["reason"] = "need both z3 and cvc5 on PATH"
+        return r
+    st = selftest(os.path.join(scratch, "e2st-" + job["name"]), sv)
+    if st:
+        r["reason"] = "translator self-test failed (encoding not trusted): " + st[:400]
+        return r
+    r["assumptions"].append("translator validated on this run against rustc's MIR of lib/e2_selftest/known.rs (21 functions with known verdicts)")
+    try:
+        baseline = set(json.load(open(BASELINE))["undecided"]) if os.path.isfile(BASELINE) else set()
+    except Exception as e:
+        r["reason"] = f"baseline unreadable: {e}"
+        return r
+    allsites, funcs = [], set()
+    try:
+        for crate in job["crates"]:
+            fns = parse_mir(dump_mir(overlay, crate, scratch))
+            for fn in fns:
+                if job.get("only_fn") and not re.search(job["only_fn"], fn.name):
+                    continue
+                for s in analyse_fn(fn, sv, stats):
+                    s["crate"] = crate
+                    s["key"] = site_key(crate, s)
+                    allsites.append(s)
+                    funcs.add(f"{crate}::{fn.name}"[:120])
+    except Exception as e:
+        r["reason"] = f"encoding failed: {type(e).__name__}: {e}"[:400]
+        return r
+    r["functions"] = sorted(funcs)
+    r["checks_total"] = len(allsites)
+    proved = [s for s in allsites if s["verdict"] == "proved"]
+    cands = [s for s in allsites if s["verdict"] == "candidate"]
+    errs = [s for s in allsites if s["verdict"] == "error"]
+    known = [s for s in cands if s["key"] in baseline]
+    new = [s for s in cands if s["key"] not in baseline]
+    r["checks_passed"] = len(proved)
+    r["undecided_baseline"] = len(known)
+    r["queries"] = stats["queries"]
+    r["solver_s"] = round(stats["solver_s"], 2)
+    r["covers_total"] = r["covers_satisfied"] = None
+    r["e2_sites"] = [{"site": s["key"], "verdict": ("undecided(baseline)" if s in known else s["verdict"]), "paths": s["paths"]}
+                     for s in allsites][:200]
+    reproduced, unreproduced = [], []
+    if new:
+        jaq_bin = build_jaq(overlay, scratch)
+        for s in new:
+            rep = replay_candidate(s, jaq_bin, scratch, stats)
+            (reproduced if rep else unreproduced).append((s, rep))
+    r["replays"] = stats["replays"]
+    r["wall_s"] = round(time.time() - t0, 1)
+    if reproduced:
+        r["verdict"] = "violated"
+        for (s, rep) in reproduced:
+            r["failed"].append({"category": "e2", "description": f"{s['msg']} [{','.join(s['operands'])}]",
+                                "function": s["fn"], "file": s["crate"], "line": s["block"],
+                                "model": s["model"], "replayed": rep})
+        r["replay"] = {"reproduced": True,
+                       "detail": "jaq (dev profile, built from the overlay) panics on: " + "; ".join(
+                           f"`{rep['program']}` -> {rep['stderr']}" for (_, rep) in reproduced[:3]),
+                       "tests": [rep for (_, rep) in reproduced]}
+        return r
+    if unreproduced or errs:
+        r["reason"] = "; ".join(
+            [f"new undecided site (solver: may overflow; no concrete replay): {s['key']} model={json.dumps(s['model'])[:160]}" for (s, _) in unreproduced[:4]] +
+            [f"solver error at {s['key']}" for s in errs[:3]])
+        return r
+    if not allsites:
+        r["reason"] = "vacuity guard: no arithmetic site found in the MIR (dump format changed?)"
+        return r
+    if not proved:
+        r["reason"] = "vacuity guard: no site proved"
+        return r
+    r["verdict"] = "held"
+    return r
+
+
+if __name__ == "__main__":
+    # stand-alone: python3 lib/e2.py <overlay-or-repo> [--write-baseline]
+    import sys
+    import tempfile
+    root = sys.argv[1] if len(sys.argv) > 1 else "/repo"
+    scratch = tempfile.mkdtemp(prefix="jaqverif-e2-")
+    try:
+        ov = os.path.join(scratch, "repo")
+        subprocess.run(["rsync", "-a", "--exclude", "/target", "--exclude", ".git", root + "/", ov + "/"], check=True)
+        stats = {"queries": 0, "solver_s": 0.0, "disagreements": 0, "replays": 0}
+        und = []
+        for crate in CRATES:
+            for fn in parse_mir(dump_mir(ov, crate, scratch)):
+                for s in analyse_fn(fn, solvers(), stats):
+                    k = site_key(crate, s)
+                    print(s["verdict"], k, s["paths"], json.dumps(s["model"])[:200] if s["model"] else "")
+                    if s["verdict"] != "proved":
+                        und.append(k)
+        print(stats)
+        if "--write-baseline" in sys.argv:
+            json.dump({"undecided": sorted(set(und))}, open(BASELINE, "w"), indent=1)
+    finally:
+        shutil.rmtree(scratch, ignore_errors=True)
